@@ -45,4 +45,13 @@ def obligations(tier, ctx):
         obs.append(Ob(name="pairing_real_" + "".join(map(str, lst)), params=[("p", "int")], pre=["-1 <= p <= 5"],
                       call=f"H.pairing({expr}, None if p < 0 else H.H3.pick(p))", backend="F", timeout=300,
                       family="client/server pairing, real and invented dates"))
+    from symcheck import consts
+    nsz = len(consts.size_cases(70000, extra=(4096, 8192, 65536, 131072)))
+    for form in range(4):
+        obs.append(Ob(name=f"long_f{form}", params=[("k", "int"), ("i", "int")], pre=[f"0 <= k < {nsz}", "0 <= i <= 2"] + (["i == 0"] if tier == "quick" else []),
+                      call=f"H.init_long(k, {form}, i)", backend="P", timeout=600, family="size: requested version = a supported one with c-1, c, c+1 extra characters"))
+    clim = 110 if tier == "quick" else 1100
+    nc = len(consts.size_cases(clim))
+    obs.append(Ob(name="nth_initialize", params=[("k", "int"), ("i", "int"), ("u", "bool")], pre=[f"0 <= k < {nc}", "0 <= i <= 2"] + (["i == 2"] if tier == "quick" else []),
+                  call=f"H.init_nth(k, i, u, {clim})", backend="P", timeout=900, family="count: the (n+1)-th handshake on one server, n = c-1, c, c+1"))
     return obs
